@@ -580,6 +580,8 @@ class Interp:
                 return Closure(g_[1], Env(), self)
             if e.id[:1].isupper() or e.id in ('ast', 'sa', 're', 'copy', 'utils', 'steps', 'dt', 'datetime', 'textwrap', 'functools', 'itertools', 'operator') or e.id in {k.split('.')[0] for k in self.stubs}:
                 return ClassRef(e.id)       # a class / module of the repository: only used as callee or in isinstance
+            if self._imported_library_name(e.id):
+                return ClassRef(e.id)       # a name imported from a library (not from mindsdb_sql): only used as callee / attribute base, stand-ins by dotted text
             raise AnalysisError(f'interpreter: free variable `{e.id}` (line {getattr(e, "lineno", "?")}) has no stand-in')
         if isinstance(e, ast.Attribute):
             d = norm(e)
@@ -769,6 +771,21 @@ class Interp:
         if isinstance(base, dict) and attr in base:
             return base[attr]
         return BoundMethod(base, attr)
+
+    def _imported_library_name(self, name):
+        mod = self.module
+        if mod is None:
+            return False
+        for st in mod.body:
+            if isinstance(st, ast.Import):
+                for a in st.names:
+                    if (a.asname or a.name.split('.')[0]) == name and not a.name.startswith('mindsdb_sql'):
+                        return True
+            elif isinstance(st, ast.ImportFrom) and st.module and not st.module.startswith('mindsdb_sql') and st.level == 0:
+                for a in st.names:
+                    if (a.asname or a.name) == name:
+                        return True
+        return False
 
     def _ev_in_module(self, expr):
         saved = self.module
